@@ -210,16 +210,20 @@ def autoStart (cfg : Cfg) (e : Env) (res : SpawnRes) : S → S := guard fun s0 =
     else if transition_g5 s0.p cfg e then
       if transition_g6 s0.p cfg e then spawn cfg now res s0 else s0
     else if transition_g7 s0.p cfg e then
-      if transition_g8 s0.p cfg e && transition_g9 s0.p cfg e then spawn cfg now res s0 else s0
+      if transition_g8 s0.p cfg e then
+        if transition_g9 s0.p cfg e then spawn cfg now res s0 else s0
+      else s0
     else s0
   else s0
 
 /-- second block: STARTING -> RUNNING once the child has stayed up longer than startsecs -/
 def toRunning (cfg : Cfg) (e : Env) : S → S := guard fun s1 =>
-  if transition_g10 s1.p cfg e && transition_g11 s1.p cfg e then
-    s1 |> setP (fun p => { p with delay := transition_a4 p cfg e, backoff := transition_a5 p cfg e })
-       |> (fun s => assertIn (transition_c0 s.p cfg e) s)
-       |> (fun s => changeState cfg e.now (transition_c1_0 s.p cfg e) true s)
+  if transition_g10 s1.p cfg e then
+    if transition_g11 s1.p cfg e then
+      s1 |> setP (fun p => { p with delay := transition_a4 p cfg e, backoff := transition_a5 p cfg e })
+         |> (fun s => assertIn (transition_c0 s.p cfg e) s)
+         |> (fun s => changeState cfg e.now (transition_c1_0 s.p cfg e) true s)
+    else s1
   else s1
 
 /-- third block: BACKOFF -> FATAL when the retries are used up, or SIGKILL escalation -/
